@@ -31,6 +31,7 @@ type bufHalf struct {
 	cond   *sync.Cond
 	data   []byte
 	closed bool
+	wdl    time.Time // write deadline of the end that writes into this half (honoured like net.Pipe does)
 }
 
 func newHalf() *bufHalf { h := &bufHalf{}; h.cond = sync.NewCond(&h.mu); return h }
@@ -64,6 +65,9 @@ func (c *bufConn) Write(p []byte) (int, error) {
 	if h.closed {
 		return 0, io.ErrClosedPipe
 	}
+	if !h.wdl.IsZero() && !time.Now().Before(h.wdl) {
+		return 0, os.ErrDeadlineExceeded
+	}
 	h.data = append(h.data, p...)
 	h.cond.Broadcast()
 	return len(p), nil
@@ -84,11 +88,16 @@ type dummyAddr struct{}
 func (dummyAddr) Network() string { return "mem" }
 func (dummyAddr) String() string  { return "mem" }
 
-func (c *bufConn) LocalAddr() net.Addr                { return dummyAddr{} }
-func (c *bufConn) RemoteAddr() net.Addr               { return dummyAddr{} }
-func (c *bufConn) SetDeadline(t time.Time) error      { return nil }
-func (c *bufConn) SetReadDeadline(t time.Time) error  { return nil }
-func (c *bufConn) SetWriteDeadline(t time.Time) error { return nil }
+func (c *bufConn) LocalAddr() net.Addr               { return dummyAddr{} }
+func (c *bufConn) RemoteAddr() net.Addr              { return dummyAddr{} }
+func (c *bufConn) SetDeadline(t time.Time) error     { return c.SetWriteDeadline(t) }
+func (c *bufConn) SetReadDeadline(t time.Time) error { return nil } // reads only ever wait for data
+func (c *bufConn) SetWriteDeadline(t time.Time) error {
+	c.wr.mu.Lock()
+	c.wr.wdl = t
+	c.wr.mu.Unlock()
+	return nil
+}
 
 // patchConn rewrites the msize field of the first frame the client writes (its
 // Tversion: size[4] type[1] tag[2] msize[4] …), i.e. it plays a client that
@@ -187,7 +196,8 @@ func sGot(vals []sx.S, out []byte, err error) sx.S {
 // ------------------------------------------------------------ scripts and calls
 
 type script struct {
-	kind   string // ok | read | rerror | prerror | plain
+	delay  time.Duration // the session call takes this long
+	kind   string        // ok | read | rerror | prerror | plain
 	text   string
 	qid    p9p.Qid
 	qids   []p9p.Qid
@@ -408,6 +418,9 @@ func (s *recS) entry(fid p9p.Fid, method string, recv sx.S) *call {
 	c.recvCnt++
 	c.mu.Unlock()
 	s.barrier.wait()
+	if c.sc.delay > 0 {
+		time.Sleep(c.sc.delay)
+	}
 	return c
 }
 
@@ -1493,6 +1506,8 @@ func childMain(mode string) {
 		childBarrier()
 	case "reads":
 		childReads()
+	case "ctx":
+		childCtx()
 	default:
 		fmt.Fprintln(os.Stderr, "unknown child mode", mode)
 		os.Exit(2)
